@@ -7,7 +7,7 @@
    admissible histories ([history_ok]: >= 2 factors, well-formed keys, erase(id, pf) with the
    inserting key or a non-stored id, strictly increasing id lists for refine). *)
 From Coq Require Import List Arith Bool Sorted Permutation.
-From AIT Require Import C20.Model C20.Spec C20.ProofsLists C20.ProofsApply C20.Proofs C20.ProofsFaster C20.ProofsFilterMap C20.ProofsReconstruct.
+From AIT Require Import C20.Model C20.Spec C20.ProofsLists C20.ProofsApply C20.Proofs C20.ProofsFaster C20.ProofsFilterMap C20.ProofsReconstruct C20.ProofsChecker C20.ProofsReconstruct2.
 Import ListNotations.
 
 (* --- meaning of the spec's boolean filter --- *)
@@ -204,6 +204,57 @@ Theorem rc_bucket_bound_free : forall F remove n m todo kept f acc done,
 Proof. exact rc_bucket_bound_irrelevant. Qed.
 Print Assumptions rc_bucket_bound_free.
 
+(* --- reconstruct, round 3.
+   (a) No out-of-range access: whatever the shuffles produce — [orders_ok]: factor indices inside F, per
+       factor a non-empty order of values inside that factor's range; keysS bucket-wise a permutation of
+       keys_ — the checked model returns Ok (never UB). --- *)
+Theorem reconstruct_no_UB : forall t c st q remove ord0 ordv keysS,
+  FInv2 t (c, st) -> pf_okb (fF t) q = true -> shuffle_of (fkeys t) keysS -> orders_ok (fF t) ord0 ordv ->
+  exists t' entries f', ft_reconstruct t q remove ord0 ordv keysS = Ok (t', entries, f').
+Proof. exact reconstruct_no_UB_lemma. Qed.
+Print Assumptions reconstruct_no_UB.
+
+(* (b) Nothing else changes: F and the id counter are untouched and the object afterwards represents
+       exactly the store without the returned entries (remove = true) / the same store (remove = false)
+       — bucket placement, no repeated ids, multiset — so that any further history starts from a valid
+       state (FasterTrie_history_inv applies to t'). *)
+Theorem reconstruct_state : forall t c st q remove ord0 ordv keysS t' entries f',
+  FInv2 t (c, st) -> pf_okb (fF t) q = true -> shuffle_of (fkeys t) keysS ->
+  ft_reconstruct t q remove ord0 ordv keysS = Ok (t', entries, f') ->
+  fF t' = fF t /\ fcounter t' = fcounter t /\ FInv2 t' (c, store_after remove entries st).
+Proof. exact reconstruct_state_lemma. Qed.
+Print Assumptions reconstruct_state.
+
+(* (c) The executable checker the driver runs on the REAL reconstruct's output is sound for the Prop
+       [reconstruct_spec] (entries stored, agreeing with the query and pairwise, factors carrying the
+       query's and the entries' values) and for "no id twice"; the model's output satisfies the same Prop. *)
+Theorem reconstruct_okb_sound : forall F (st : store) q entries f,
+  (forall e, In e st -> pf_okb F (snd e) = true) -> pf_okb F q = true -> reconstruct_okb F st q entries f = true ->
+  reconstruct_spec st q entries f /\ NoDup (map fst entries).
+Proof. exact reconstruct_okb_sound_lemma. Qed.
+Print Assumptions reconstruct_okb_sound.
+
+Theorem reconstruct_meets_spec : forall t c st q remove ord0 ordv keysS t' entries f',
+  FInv2 t (c, st) -> pf_okb (fF t) q = true -> shuffle_of (fkeys t) keysS ->
+  ft_reconstruct t q remove ord0 ordv keysS = Ok (t', entries, f') ->
+  reconstruct_spec st q entries f'.
+Proof. exact reconstruct_meets_spec_lemma. Qed.
+Print Assumptions reconstruct_meets_spec.
+
+(* the returned factors are exactly the list the checker compares with: the query's value, else the value
+   of a returned entry naming the factor, else the "unset" marker F[k] *)
+Theorem reconstruct_factors_exact : forall t c st q remove ord0 ordv keysS t' entries f',
+  FInv2 t (c, st) -> pf_okb (fF t) q = true -> shuffle_of (fkeys t) keysS ->
+  ft_reconstruct t q remove ord0 ordv keysS = Ok (t', entries, f') ->
+  f' = expected_factors (fF t) q entries.
+Proof. exact reconstruct_factors_exact_lemma. Qed.
+Print Assumptions reconstruct_factors_exact.
+
+(* [agree] (both name the factor -> same value) is [compatible] on well-formed keys *)
+Theorem agree_iff_compatible : forall F a b, pf_okb F a = true -> (agree a b <-> compatible a b).
+Proof. intros F a b H. split; [apply (agree_compatible F); auto|apply compatible_agree]. Qed.
+Print Assumptions agree_iff_compatible.
+
 (* --- the hypotheses are satisfiable on non-trivial inputs --- *)
 Definition ex_hist : list op :=
   [OInsert ([0], [1]); OInsert ([1;2], [0;2]); OInsert ([], []); OInsert ([0;2], [1;0]);
@@ -250,3 +301,15 @@ Example ex_filtermap :
   exists m, fm_build [2;3] [(([0], [1]), 10); (([1], [2]), 20); (([0;1], [0;2]), 30)] = Ok m /\
             fm_filterFO_const m [2] 1 = Ok [10; 20; 30] /\ fm_filterPf m ([0], [1]) = Ok [10; 20].
 Proof. eexists. split; [vm_compute; reflexivity|]. split; vm_compute; reflexivity. Qed.
+
+Example ex_orders_ok : orders_ok [3;2;4] [1;0;2] [[1;0;2]; [0;1]; [2;0;3;1]].
+Proof.
+  split.
+  - intros o [<-|[<-|[<-|[]]]]; cbn; auto.
+  - intros [|[|[|o]]] s H; cbn in H; try (destruct o; discriminate); inversion H; subst; eexists; eexists; (split; [reflexivity|]);
+      cbn; intros v Hv; repeat (destruct Hv as [<-|Hv]; [auto|]); destruct Hv.
+Qed.
+
+Example ex_checker : reconstruct_okb [3;2;4] [(0, ([0], [1])); (1, ([1;2], [0;2])); (2, ([0;2], [1;0])); (3, ([0;2], [1;2]))]
+                       ([1], [0]) [(1, ([1;2], [0;2])); (3, ([0;2], [1;2])); (0, ([0], [1]))] [1;0;2] = true.
+Proof. vm_compute. reflexivity. Qed.
